@@ -51,6 +51,25 @@ func verifyTxRoot(block *types.Block) error {
 
 // verifyTxs verify the Tx list in block body
 func verifyTxs(block *types.Block, txGuard TxGuard, chainId uint16) error {
+	// a tx hash (or box sub-tx hash) must not occur twice inside the block itself
+	seen := make(map[common.Hash]struct{}, len(block.Txs))
+	for _, tx := range block.Txs {
+		hashes := []common.Hash{tx.Hash()}
+		if tx.Type() == params.BoxTx {
+			if box, err := types.GetBox(tx.Data()); err == nil {
+				for _, subTx := range box.SubTxList {
+					hashes = append(hashes, subTx.Hash())
+				}
+			}
+		}
+		for _, hash := range hashes {
+			if _, ok := seen[hash]; ok {
+				log.Error("Consensus verify fail: tx is duplicated in block", "hash", hash.Hex())
+				return ErrVerifyBlockFailed
+			}
+			seen[hash] = struct{}{}
+		}
+	}
 	if txGuard.ExistTxs(block.ParentHash(), block.Txs) {
 		log.Error("Consensus verify fail: tx is appeared in parent blocks")
 		return ErrVerifyBlockFailed
